@@ -177,19 +177,20 @@ def who_runs(ctx):
     ctx.ob('R-C08d', 'runner:wrapper-callers', outer <= pollfns and bool(outer), loc=r.loc,
            detail='iv_event_run_pending_events is called only from poll slots: %s' % sorted(outer), fn=r.q)
     # in those poll slots the call is reached only if the kick token compared equal to this thread's state
+    bysite = {}
     for c, e in prog.callers_of('iv_event_run_pending_events'):
-        hd = holding(c)
-        A = hd.get((e['_b'], e['_i']), frozenset())
-        flag = [a for a in A if a[0] == '!=' and a[2] == '0' and all(k[0] == 'var' for k in a[3])]
-        ok = False
-        for a in flag:
-            v = a[1]
-            sets = [s for s in c.events() if s['ev'] == 'store' and canon(s['lhs']) == v and canon(s.get('rhs')) == '1']
-            hd2 = hd
-            for s in sets:
-                B = hd.get((s['_b'], s['_i']), frozenset())
-                if any(b[0] == '==' and 'data.ptr' in b[1] and b[2] == 'st' for b in B):
-                    ok = True
+        # every path to the call crosses an edge on which a kernel token compared equal to this thread's state
+        stn = c.params[0]['name'] if c.params else 'st'
+        def edge(blk, si, s, stn=stn):
+            if blk.term and blk.term.get('cond') is not None and len(blk.succ) == 2:
+                for (op, lc, rc, l, r) in norm_cond(blk.term['cond'], si == 0):
+                    if op == '==' and {stn} & {lc, rc} and ('data.ptr' in lc or 'data.ptr' in rc):
+                        return True
+            return s
+        _, ev_in = forward(c, False, lambda ev, s: s, lambda a, b: a and b, edge=edge)
+        k = (c.q, e['loc'])
+        bysite[k] = (c, e, bysite.get(k, (None, None, True))[2] and bool(ev_in.get((e['_b'], e['_i']))))
+    for k, (c, e, ok) in sorted(bysite.items()):
         ctx.ob('R-C08d', '%s:own-kick-token' % c.name, ok, loc=e['loc'],
                detail='pending events are run only if a batch entry carried this thread\'s own state pointer as token', fn=c.q)
     # address of the runner is installed only as handler of the owner-local task and the kick raw event
